@@ -243,6 +243,7 @@ def run(ctx):
     # Executor) and through py_gql.graphql on an asyncio loop with resolvers completing OUT OF DOCUMENT ORDER
     from corr import C04_runtimes
     C04_runtimes.run(ctx)
+    leading_node_class(ctx, None, lean_cases if use_lean else None)       # the fixed-schema part of the class, also first
     for si in range(n_schemas):
         if ctx.time_left() < 15:
             ctx.notes.append("stopped early at schema %d (time)" % si)
@@ -359,12 +360,13 @@ def leading_node_class(ctx, built, lean_cases):
     request - on a fixed schema (named probe) and on every generated schema of this run, under fixed worlds; compared with
     the specification like every other request. Reads no randomness."""
     todo = []
-    try:
-        schema, holder, dump = X.build(LN.FIXED_SDL, 0)
-        todo += [(schema, holder, dump, LN.FIXED_SDL, 0, d, LN.FIXED_SEEDS) for d in LN.FIXED_DOCS]
-    except Exception as e:  # noqa
-        ctx.stat("schema-build-failed:" + type(e).__name__)
-    for schema, holder, dump, sdl, enum_kind, desc in built:
+    if built is None:
+        try:
+            schema, holder, dump = X.build(LN.FIXED_SDL, 0)
+            todo += [(schema, holder, dump, LN.FIXED_SDL, 0, d, LN.FIXED_SEEDS) for d in LN.FIXED_DOCS]
+        except Exception as e:  # noqa
+            ctx.stat("schema-build-failed:" + type(e).__name__)
+    for schema, holder, dump, sdl, enum_kind, desc in built or []:
         todo += [(schema, holder, dump, sdl, enum_kind, d, [0, 1, 2]) for d in LN.leading_node_documents(desc)]
     for schema, holder, dump, sdl, enum_kind, (label, text, vs), seeds in todo:
         if ctx.time_left() < 12:
